@@ -764,13 +764,19 @@ fn path_str(path: &[String], absolute: bool) -> String {
     format!("{}{}", if absolute { "::" } else { "" }, path.join("::"))
 }
 
-/// the declarations and resolved uses of the tree outside the helper namespace, in tree order
-pub fn listing(w: &Walk) -> String {
+/// The declarations and uses of the tree `w` outside the helper namespace, in tree order.  Which uses are listed is
+/// decided on the skeleton's tree `w0` (same shape, every user entity under a unique fresh name, so nothing there is
+/// captured or dangling): a use is listed when the skeleton's use names a user entity or resolves to a declaration
+/// outside the helper namespace; the text listed is the one of `w`.
+pub fn listing(w: &Walk, w0: &Walk) -> String {
+    let same_shape = w.evs.len() == w0.evs.len();
+    let w0 = if same_shape { w0 } else { w };
     let mut out: Vec<String> = Vec::new();
     let mut skip_depth: Option<usize> = None;
     let mut depth = 0usize;
-    let is_helper_decl = |i: usize| matches!(&w.evs[i], Ev::Decl { helper: true, .. });
-    for ev in w.evs.iter() {
+    let is_helper_decl = |i: usize| matches!(&w0.evs[i], Ev::Decl { helper: true, .. });
+    let fresh = |p: &[String]| p.iter().any(|c| decode_fresh(c).is_some());
+    for (ev, ev0) in w.evs.iter().zip(w0.evs.iter()) {
         match ev {
             Ev::Open(_) => {
                 depth += 1;
@@ -791,7 +797,6 @@ pub fn listing(w: &Walk) -> String {
                     if skip_depth.is_none() && *kind == DK::Namespace {
                         // the helper namespace: skip through its closing event
                         skip_depth = Some(depth + 1);
-                        // the Open that follows belongs to the skipped region
                     }
                     continue;
                 }
@@ -799,23 +804,30 @@ pub fn listing(w: &Walk) -> String {
                     out.push(format!("{}:{}", kind.letter(), name));
                 }
             }
-            Ev::Use { kind, path, absolute, res, helper, .. } => {
+            Ev::Use { kind, path, absolute, helper, .. } => {
                 if *helper || skip_depth.is_some() {
                     continue;
                 }
-                match (kind, res) {
-                    (UK::Member, Res::Decls(_)) => out.push(format!(".{}", path.join("::"))),
-                    (UK::Member, Res::NoSuchMember(_)) => out.push(format!("!{}", path.join("::"))),
-                    (UK::Member, _) => {}
-                    (_, Res::Decls(ds)) if ds.iter().all(|d| is_helper_decl(*d)) => {}
-                    (UK::Value, Res::Decls(_)) => out.push(format!("?{}", path_str(path, *absolute))),
-                    (UK::Type, Res::Decls(_)) => out.push(format!("?:{}", path_str(path, *absolute))),
-                    _ => {}
+                let (p0, r0) = match ev0 {
+                    Ev::Use { path, res, .. } => (path.as_slice(), res),
+                    _ => continue,
+                };
+                let listed = fresh(p0)
+                    || match r0 {
+                        Res::Decls(ds) => !ds.iter().all(|d| is_helper_decl(*d)),
+                        _ => false,
+                    };
+                if !listed {
+                    continue;
+                }
+                match kind {
+                    UK::Member => out.push(format!(".{}", path.join("::"))),
+                    UK::Value => out.push(format!("?{}", path_str(path, *absolute))),
+                    UK::Type => out.push(format!("?:{}", path_str(path, *absolute))),
                 }
             }
         }
     }
-    // the Open of a skipped helper namespace was not printed; nothing to fix up
     out.join(" ")
 }
 
@@ -833,13 +845,13 @@ pub fn show(line: &str, tgt: &str, prog: &str, out: &mut Out) {
         Ok(b) => {
             eprintln!("---- text\n{}", b.text);
             let w = Walk::run(&b.tree, if t == Tgt::Msl { Some("helper") } else { None });
-            eprintln!("---- listing\n{}", listing(&w));
+            eprintln!("---- listing\n{}", listing(&w, &w));
             eprintln!("---- refl {:?}\n---- entries {:?}\n---- tie {}", b.refl, b.entries, b.text == b.formatted);
         }
-        Err(BuildErr::Front(e)) => eprintln!("front {}", e),
-        Err(BuildErr::Compile(e)) => eprintln!("compile {}", e),
-        Err(BuildErr::Panic(e)) => eprintln!("panic {}", e),
-        Err(BuildErr::Hook(e)) => eprintln!("hook {}", e),
+        Err(e) => {
+            let (k, m) = err_text(&e);
+            eprintln!("{} {}", k, m);
+        }
     }
     out.case(line, "unsupported-op", "ok");
 }
@@ -1489,7 +1501,7 @@ pub fn run_case(target: &str, prog: &str, cx: &mut RCtx, out: &mut Out) {
     obs.push("|entry".into());
     obs.extend(b1.entries.iter().map(|e| e.1.clone()));
     obs.push("|out".into());
-    obs.push(listing(&w1));
+    obs.push(listing(&w1, &w0));
     let obs = obs.join(" ");
     let leaf: HashMap<Key, String> = names.iter().map(|(k, q, _)| (*k, q.last().cloned().unwrap_or_default())).collect();
     let inp = OracleIn {
@@ -1548,7 +1560,7 @@ pub fn sweep_programs(n: &str) -> Vec<String> {
     v.push(format!("ns zqn rs ba - {} cb zqc - zqm end end {}", n, tail("use G0 use D0.0")));
     v.push(format!("ns {} rs ba - zqr end {}", n, tail("use G0")));
     v.push(format!("gl g {} gl c zqk {}", n, tail("use G0 use G1")));
-    v.push(format!("gl s {} fn zqf - {{ use G0 }} {}", n, tail("use F0")));
+    v.push(format!("gl s {} fn zqf - {{ use G0 }} ef c zqe zqp {{ use F0 }} pl zqP F1 -", n));
     v.push(format!("rs ba - zqr ef c {} zqp {{ use G0 }} pl zqP F0 -", n));
     v.push(format!("rs ba - zqr ef c zqe {} {{ use G0 use L0 }} pl zqP F0 -", n));
     v.push(format!("rs tex - zqr ef c zqe zqp {{ use G0 }} pl {} F0 d1", n));
